@@ -1600,7 +1600,7 @@ func c26ScenarioProperty(st *vs.S) func(rt *rapid.T) {
 			if ep.Uniform(rt, "callee-slot0", 2) == 0 {
 				st[common.Hash{}] = common.BigToHash(big.NewInt(1))
 			}
-			c.put(c26ScnB, 1, big.NewInt(10), codeB, st)
+			c.put(c26ScnB, 1, c26Pick(rt, "callee-balance", big.NewInt(10), big.NewInt(10), big.NewInt(0)), codeB, st)
 		}
 		stA := map[common.Hash]common.Hash{}
 		if ep.Uniform(rt, "caller-slot0", 2) == 0 {
@@ -1690,6 +1690,9 @@ func TestVerifC26Transition(t *testing.T) {
 	d := c26Full
 	if os.Getenv("VERIF_C26_NARROW") != "" { // development aid: the first, small differential
 		d = c26Domain{forks: []refevm.Fork{refevm.Cancun}, maxTxs: 2, maxContracts: 2}
+	}
+	if vs.Thorough() {
+		d.maxTxs = 6
 	}
 	vs.Check(t, 1, c26Property(st, d))
 }
